@@ -305,6 +305,15 @@ def run_case(concepts, case, spec):
     call(lat.join, lat.atoms)
     call(lat.meet, lat.atoms)
     COL.count('lattice_object_as_argument')
+    if len(ctx.objects) <= 12 and len(ctx.properties) <= 12 and n <= 200:
+        common.interference(concepts, ctx, lat, rng, 15)
+        for _ in range(12):
+            a, b = members[rng.randrange(n)], members[rng.randrange(n)]
+            call(lambda: a | b)
+            call(lambda: a & b)
+            call(lat.join, [a, b])
+            call(lat.meet, (b, a))
+        COL.count('asked_again_after_interference')
     call(lat.join, [])
     call(lat.meet, ())
     # concepts that outlive every other reference to their lattice and context
